@@ -185,7 +185,7 @@ def _quiet():
 
 
 class Outcome:
-    __slots__ = ('ok', 'value', 'exc', 'exc_msg', 'site', 'output', 'hang', 'frames')
+    __slots__ = ('ok', 'value', 'exc', 'exc_msg', 'site', 'output', 'hang', 'frames', 'side')
 
     def __init__(self):
         self.ok = True
@@ -196,6 +196,7 @@ class Outcome:
         self.output = ''
         self.hang = False
         self.frames = ()
+        self.side = None
 
     def brief(self):
         return 'ok' if self.ok else 'exc:' + self.exc
@@ -370,6 +371,21 @@ def apply(st, op, child_mode='opaque'):
             arg = st.made[st.detached[0]] if st.detached else child(op[2], child_mode)
         elif what == 'foreign':
             arg = child(op[2], child_mode)
+        elif what == 'others':
+            # a child that belongs to ANOTHER live element of the same type: the call must fail and must leave that
+            # other element alone (observed here because the other element is not part of the explored state)
+            other = fresh(type_of(el), True) if type_of(el) else None
+            arg = child(op[2], child_mode)
+            okadd = other is not None and call(other.add_child, arg).ok
+            if okadd:
+                before = (serialise(other)[:3], [id(c) for c in other.get_children(ordered=True)])
+                st.made.append(None)
+                o = call(el.remove, arg)
+                after = (serialise(other)[:3], [id(c) for c in other.get_children(ordered=True)])
+                if before != after or arg.get_parent() is not other:
+                    o.side = 'other-element-changed'
+                st.outcomes.append(o)
+                return o
         else:
             arg = None
         st.made.append(None)
@@ -392,6 +408,14 @@ def apply(st, op, child_mode='opaque'):
         raise ValueError(op)
     st.outcomes.append(o)
     return o
+
+
+def type_of(el):
+    for n, ts in R.partwise_elements().items():
+        if n == el.name and len(ts) == 1:
+            k, t = R.element_type(n)
+            return t if k == 'complex' and t in TYPES else None
+    return None
 
 
 def build(T, hist, check=True, child_mode='opaque', el_name=None):
